@@ -408,6 +408,7 @@ func (a *CBOAnalyzer) collectImports(ast *parser.Node) map[string]string {
 		switch node.Type {
 		case parser.NodeImport:
 			// import module as alias
+			aliased := make(map[string]bool)
 			for _, child := range node.Children {
 				if child.Type == parser.NodeAlias {
 					module := child.Name
@@ -418,11 +419,19 @@ func (a *CBOAnalyzer) collectImports(ast *parser.Node) map[string]string {
 						}
 					}
 					imports[alias] = module
+					aliased[module] = true
+				}
+			}
+			// import module (no alias): the parser lists these in Names only
+			for _, name := range node.Names {
+				if !aliased[name] {
+					imports[name] = name
 				}
 			}
 		case parser.NodeImportFrom:
 			// from module import name as alias
 			module := node.Module
+			aliased := make(map[string]bool)
 			for _, child := range node.Children {
 				if child.Type == parser.NodeAlias {
 					name := child.Name
@@ -433,6 +442,13 @@ func (a *CBOAnalyzer) collectImports(ast *parser.Node) map[string]string {
 						}
 					}
 					imports[alias] = module + "." + name
+					aliased[name] = true
+				}
+			}
+			// from module import name (no alias): the parser lists these in Names only
+			for _, name := range node.Names {
+				if name != "*" && !aliased[name] {
+					imports[name] = module + "." + name
 				}
 			}
 		}
